@@ -1,5 +1,6 @@
-(** Binary64 witnesses for the C12 findings that exact real arithmetic cannot
-    show (division 0/0, round-off): the SAME kernel text instantiated at Coq's
+(** Binary64 statements for C12 that exact real arithmetic cannot show (division
+    0/0, round-off) -- two regression witnesses of repaired defects (no NaN any
+    more) and one remaining finding: the SAME kernel text instantiated at Coq's
     primitive floats ([FArith]) and evaluated by [vm_compute].  Where no libm
     function is reached the statement holds for every [LibM]; where exp/pow are
     reached, for [stubM], a libm of which only "f(NaN) = NaN" matters.
@@ -19,30 +20,25 @@ Definition stubM : LibM := {|
   l_ln := fun x => x; l_log10 := fun x => x; l_tanh := fun x => x; l_cos := fun x => x;
   l_pow := fun _ _ => 1 |}.
 
-(** StorageParticulateTrapping, empty reservoir without outflow (outflow = storage = 0):
-    the stored mass is NaN after one step, for every libm (reservoirLength = 0: pow is not reached). *)
-Theorem trapping_nan_on_empty_refuted : forall l : LibM,
-  exists params states inputs outs st,
-    all_nonneg params = true /\ all_nonneg states = true /\ forallb all_nonneg inputs = true /\
-    @storage_particulate_trapping_kernel float (FArith l) params states inputs = Some (outs, [st]) /\
-    f_is_nan st = true /\ f_is_nan (nth 0 (nth 1 outs []) 0) = true.
-Proof.
-  intros l.
-  exists [86400; 1000000; 0; 112; 800; 1; 0.5], [10], [[1]; [1]; [0]; [0]].
-  eexists _, _. repeat split; try (vm_compute; reflexivity).
-Qed.
+(** StorageParticulateTrapping, empty reservoir without outflow (outflow = storage = 0), the
+    input that made the store NaN before fix 7addb3e: nothing is released and the mass is kept
+    (10 kg + 1 kg/s * 86400 s = 86410 kg), for every libm (reservoirLength = 0: pow not reached). *)
+Theorem trapping_empty_reservoir_keeps_mass : forall l : LibM,
+  @storage_particulate_trapping_kernel float (FArith l)
+    [86400; 1000000; 0; 112; 800; 1; 0.5] [10] [[1]; [1]; [0]; [0]] = Some ([[0]; [0]], [86410]).
+Proof. intros l. vm_compute. reflexivity. Qed.
 
-(** InstreamFineSediment: outflow exactly equal to bankFullFlow with
-    fineSedSettVelocityFlood * floodPlainArea = 0 gives expTerm = -1*(0/0) = NaN;
-    the downstream load and the stored mass are NaN. *)
-Theorem fine_nan_at_bankfull_refuted :
-  exists params states inputs outs c st,
-    all_nonneg params = true /\ all_nonneg states = true /\ forallb all_nonneg inputs = true /\
-    @instream_fine_sediment_kernel float (FArith stubM) params states inputs = Some (outs, [c; st]) /\
-    f_is_nan st = true /\ f_is_nan (nth 0 (nth 0 outs []) 0) = true.
+(** InstreamFineSediment at outflow exactly equal to bankFullFlow with
+    fineSedSettVelocityFlood * floodPlainArea = 0, the input that gave expTerm = -1*(0/0) = NaN
+    before fix d80779f: no output and no state is NaN, and there is no floodplain deposit. *)
+Theorem fine_at_bankfull_no_nan :
+  exists outs c st,
+    @instream_fine_sediment_kernel float (FArith stubM)
+      [10; 0; 0; 5; 1000; 0.5; 2; 0.5; 1.5; 0.25; 0.125; 0.25; 86400] [0; 100]
+      [[0.5]; [0]; [0]; [1000]; [10]] = Some (outs, [c; st]) /\
+    forallb (forallb (fun v => negb (f_is_nan v))) outs = true /\
+    f_is_nan c = false /\ f_is_nan st = false /\ nth 0 (nth 1 outs []) 1 = 0.
 Proof.
-  exists [10; 0; 0; 5; 1000; 0.5; 2; 0.5; 1.5; 0.25; 0.125; 0.25; 86400], [0; 100],
-         [[0.5]; [0]; [0]; [1000]; [10]].
   eexists _, _, _. repeat split; try (vm_compute; reflexivity).
 Qed.
 
